@@ -89,11 +89,12 @@ void World::drain() {
             }
         }
         if (!((sc.fam & F_FINE) && (sc.fam & F_INJECT) && sc.inject && !injected && cur_prefix && !capped)) return true;
+        if (in_epilogue && (!sc.after_inject.empty() || !sc.on_complete.empty())) return true;   // follow-up actions would start after the final cancel(): nothing would ever stop them
         // handler-granular injection point: [continue draining | perform the injected action now]
         std::vector<Event> ev(2); ev[0].k = Event::CONTINUE; ev[1].k = Event::INJECT; ev[1].deviation = true;
         int idx = choose(ev, *cur_prefix); if (idx < 0) return false;
         ChoiceRec cr; cr.n = 2; cr.chosen = idx; cr.dev = idx == 1; cr.what = ev[idx].str() + where; cr.digest = 0; choices.push_back(cr);
-        if (idx == 1) { deviations++; last_deviation_ns = now(); tr(std::string("event: inject") + where + "  (deviation)"); injected = true; do_action(*sc.inject, false); }
+        if (idx == 1) { deviations++; last_deviation_ns = now(); tr(std::string("event: inject") + where + "  (deviation)"); injected = true; do_action(*sc.inject, false); for (auto& more : sc.inject_more) do_action(more, false); }
         return true;
     };
     for (;;) {
@@ -241,7 +242,7 @@ void World::apply(const Event& e) {
     case Event::RELEASE: broker->release_held(e.a); break;
     case Event::APP: { for (;;) { const Action& a = sc.script[script_pos++]; do_action(a, false); if (!a.chain || script_pos >= sc.script.size()) break; } break; }
     case Event::TIME: { auto t = next_timer(); if (t && *t > now()) vclock::set_ns(*t); break; }
-    case Event::INJECT: injected = true; do_action(*sc.inject, false); break;
+    case Event::INJECT: injected = true; do_action(*sc.inject, false); for (auto& more : sc.inject_more) do_action(more, false); break;
     case Event::RESOLVE_DONE: vclock::dns_release(false); break;
     case Event::RESOLVE_FAIL: vclock::dns_release(true); break;
     default: break;
@@ -261,7 +262,7 @@ void World::on_op_complete(int id) {
     tr("complete op" + std::to_string(id) + " ec=" + (o.ec ? o.ec.message() : "ok") + (o.rc >= 0 ? " rc=" + std::to_string(o.rc) : ""));
     if (o.completions == 1) {
         auto it = sc.on_complete.find(id);
-        if (it != sc.on_complete.end()) { int saved = running_handler_of; running_handler_of = id; for (auto& a : it->second) do_action(a, true); running_handler_of = saved; }
+        if (it != sc.on_complete.end() && !in_epilogue) { int saved = running_handler_of; running_handler_of = id; for (auto& a : it->second) do_action(a, true); running_handler_of = saved; }
         if (o.kind == Action::RECV && o.tag > 1 && client && client->alive() && o.ec != asio::error::operation_aborted) { Action a; a.k = Action::RECV; a.tag = o.tag - 1; int saved = running_handler_of; running_handler_of = id; initiate(a); running_handler_of = saved; }
     }
 }
@@ -304,7 +305,7 @@ void World::do_action(const Action& a, bool from_handler) {
     case Action::MOVE_ASSIGN: running = false; stop_times.push_back(now()); stop_seqs.push_back(net->op_seq); client->move_assign_fresh(); client->brokers(sc.hosts, sc.port); client->credentials(sc.client_id, sc.user, sc.pass); client->keep_alive(sc.keep_alive); epoch++; net->stop_marker = true; stopped_phase = true; t_stop = now(); break;
     case Action::SIGNAL: if (a.sig_type == 4 && a.target_op >= 0 && a.target_op < int(ops.size()) && ops[a.target_op].sig && ops[a.target_op].completions == 0 && ops[a.target_op].kind != Action::RECV) {
             // a terminal signal on any operation cancels the whole client (its slot handler calls client_service::cancel())
-            running = false; stop_times.push_back(now()); stop_seqs.push_back(net->op_seq); net->stop_marker = true; stopped_phase = true; t_stop = now(); }
+            running = false; stop_times.push_back(now()); stop_seqs.push_back(net->op_seq); net->stop_marker = true; stopped_phase = true; t_stop = now(); epoch++; }
         if (a.target_op == -2 && !ops.empty()) { Action b = a; b.target_op = int(ops.size()) - 1; do_action(b, from_handler); break; }
         if (a.target_op >= 0 && a.target_op < int(ops.size()) && ops[a.target_op].sig && ops[a.target_op].completions == 0) { ops[a.target_op].signalled = a.sig_type; ops[a.target_op].t_signal = now();
             ops[a.target_op].sig->emit(a.sig_type == 1 ? asio::cancellation_type::total : a.sig_type == 2 ? asio::cancellation_type::partial : asio::cancellation_type::terminal); } break;
@@ -322,6 +323,7 @@ void World::do_action(const Action& a, bool from_handler) {
 int World::choose(std::vector<Event>& ev, const std::vector<int>& prefix) {
     size_t pos = choices.size(); int idx = 0;
     if (pos < prefix.size()) { idx = prefix[pos]; if (idx < 0 || idx >= int(ev.size())) { capped = true; cap_reason = "REPLAY-DIVERGENCE: choice " + std::to_string(idx) + " of " + std::to_string(ev.size()) + " at point " + std::to_string(pos); return -1; } }
+    if (show_choices) { std::string l = "  choice#" + std::to_string(pos) + " -> " + std::to_string(idx) + " of ["; for (size_t i = 0; i < ev.size(); ++i) l += (i ? " | " : "") + ev[i].str(); tr(l + "]"); }
     return idx;
 }
 
@@ -350,7 +352,13 @@ void World::run(const std::vector<int>& prefix) {
             else break;
         }
         if (ev.empty()) break;
-        if (++steps > sc.max_steps) { capped = true; cap_reason = "step cap"; break; }
+        if (now() != last_now_seen) { last_now_seen = now(); last_time_change_step = steps; }
+        if (++steps > sc.max_steps) {
+            capped = true; cap_reason = "step cap";
+            // C11 "every trigger resolved": a connection attempt ends in a connection or in a back-off wait, so time has to pass eventually
+            if ((sc.monitors & M_C11) && steps - last_time_change_step >= 400)
+                vio("C11:reconnect-livelock:" + sc.family(), std::to_string(steps - last_time_change_step) + " consecutive network/DNS events at one virtual instant (" + ev[0].str() + " ...): reconnect attempts keep restarting each other without a connection or a back-off wait");
+            break; }
         if (now() - std::max(last_deviation_ns, vclock::BASE_NS) > sc.horizon_s * 1000000000LL && !quiet) { capped = true; cap_reason = "horizon"; break; }
         int idx = 0;
         if (ev.size() > 1 || !prefix.empty()) { idx = ev.size() > 1 ? choose(ev, prefix) : 0; if (idx < 0) break; }
@@ -375,11 +383,13 @@ uint64_t World::out_volume() const {
 void World::take_stop_snapshot(const std::string& what) {
     // a lookup parked in the DNS gate is work asio cannot cancel (getaddrinfo runs to its end): let it finish first
     for (int guard = 0; sc.gate_dns && vclock::dns_pending() > 0 && guard < 16; ++guard) { tr("(releasing a parked DNS lookup before judging the drain)"); vclock::dns_release(false); drain(); }
+    if (!stopped_phase) return;   // a completion handler has run the client again meanwhile: its work is legitimate
     stop_snap.done = true; stop_snap.parked = net->parked_count(); stop_snap.timers = pending_timers(); stop_snap.ioc_stopped = ioc->stopped(); stop_snap.t = now(); stop_snap.what = what;
     stop_snap.incomplete = 0; newer_pending_at_snap = 0; for (auto& o : ops) if (o.completions == 0) { if (o.epoch == 0) stop_snap.incomplete++; else newer_pending_at_snap++; }
 }
 
 void World::epilogue() {
+    in_epilogue = true;
     if (capped && cap_reason.rfind("REPLAY", 0) == 0) return;
     if (!sc.epilogue_cancel || !client || !client->alive()) { drain_checked = false; }
     else { tr("epilogue: cancel()"); client->cancel(); epoch++; net->stop_marker = true; }
